@@ -309,6 +309,18 @@ fn commit_staging_dir_impl(
     Ok(())
 }
 
+/// Simulator entry points to the private publish routine (the same code
+/// [`generate_all_circuit_binaries`] runs after a multi-second circuit build).
+#[cfg(quantus_network_qp_zk_circuits_verif)]
+pub fn verif_create_staging_dir(output_dir: &Path) -> Result<PathBuf> {
+    create_staging_dir(output_dir)
+}
+
+#[cfg(quantus_network_qp_zk_circuits_verif)]
+pub fn verif_commit_staging_dir(staging_dir: &Path, output_dir: &Path) -> Result<()> {
+    commit_staging_dir(staging_dir, output_dir)
+}
+
 #[cfg(test)]
 mod tests {
     use super::*;
